@@ -159,17 +159,43 @@ pub fn read_back(problem: Arc<CoreProblem>, solution_json: &Value) -> Result<Cor
     read_init_solution(BufReader::new(text.as_bytes()), problem, Arc::new(DefaultRandom::default())).map_err(|e| e.to_string())
 }
 
+/// `solve_default` without the rendering step
+fn solve_core(problem: Arc<CoreProblem>, generations: usize) -> Result<CoreSolution, String> {
+    use vrp_core::prelude::*;
+    use vrp_core::rosomaxa::evolution::TelemetryMode;
+    let config = VrpConfigBuilder::new(problem.clone())
+        .set_environment(quiet_env())
+        .set_telemetry_mode(TelemetryMode::None)
+        .prebuild()
+        .map_err(|e| e.to_string())?
+        .with_max_generations(Some(generations))
+        .build()
+        .map_err(|e| e.to_string())?;
+    Solver::new(problem, config).solve().map_err(|e| e.to_string())
+}
+
 fn run(problem: Result<Arc<CoreProblem>, Vec<String>>, gens: usize) -> Value {
     let problem = match problem {
         Ok(p) => p,
         Err(codes) => return json!({"invalid": codes}),
     };
-    let (solution, sol_json) = match solve_default(problem.clone(), quiet_env(), gens) {
+    let solution = match solve_core(problem.clone(), gens) {
         Ok(x) => x,
         Err(e) => return json!({"solve_error": e}),
     };
     let mut exact = true;
     let tr = trace(&solution, &mut exact);
+    if std::env::var("C11_DEBUG").is_ok() {
+        eprintln!("TRACE {}", serde_json::to_string(&tr).unwrap());
+    }
+    let sol_json = match std::panic::catch_unwind(std::panic::AssertUnwindSafe(|| solution_json(&problem, &solution))) {
+        Ok(Ok(j)) => j,
+        Ok(Err(e)) => return json!({"write_error": e}),
+        Err(e) => {
+            let msg = e.downcast_ref::<String>().cloned().or_else(|| e.downcast_ref::<&str>().map(|s| s.to_string())).unwrap_or_default();
+            return json!({"panic": format!("write_pragmatic: {msg}")});
+        }
+    };
     if !exact {
         return json!({"inexact": true});
     }
@@ -232,7 +258,8 @@ pub fn gen_cases(rng: &mut Rng, tier: Tier, cases: &mut Vec<Value>) {
             // alternative places at one location are told apart by their tags
             for j in sp.jobs.iter_mut() {
                 for t in j.tasks.iter_mut() {
-                    if t.places.len() == 2 && rng.chance(1, 2) {
+                    // (the largest location index must stay in use: the matrix size is checked against it)
+                    if t.places.len() == 2 && t.places[1].loc + 1 < sp.n && rng.chance(1, 2) {
                         t.places[1].loc = t.places[0].loc;
                     }
                 }
